@@ -13,6 +13,13 @@ CONSTANTS
   ChildPoss <- CP_Cube
   ChildRots <- R_All
   TotalMasses <- TM_Many
+  Groups <- G_All
+  Ranges <- RG_Many
+  MaxCompiles = 3
+  MaxEdits = 2
+  EditKinds <- E_All
+  Hows <- HW_Both
+  Design = "group"
   Rand = TRUE
 INVARIANT TypeOK
 INVARIANT GeomTensorProper
@@ -23,5 +30,7 @@ INVARIANT TensorProper
 INVARIANT TriangleOnDirections
 INVARIANT SingleGeom
 INVARIANT Published
+INVARIANT HistoryIndependent
+INVARIANT UnselectedCountsNothing
 
 CHECK_DEADLOCK FALSE
